@@ -4,5 +4,6 @@ patch="$1"; pid="$2"; tier="${3:-quick}"
 git -C /repo apply "$patch" || { echo "patch does not apply"; exit 2; }
 /venv/bin/python /verif/check.py "$pid" "$tier" > /tmp/try_seed.out 2>&1; rc=$?
 git -C /repo checkout -- .
+PYTHONPATH=/repo /venv/bin/python /verif/tools/regen.py /verif/coq/gen >/dev/null 2>&1
 grep -E "^(VIOLATION|OK|KNOWN)" /tmp/try_seed.out | head -3
 echo "rc=$rc"
